@@ -128,7 +128,7 @@ def run(ctx):
                         "edge/facet or on per-cell sorted meshes"]
     if not getattr(ctx, "no_lean", False):
         ctx.prove(["SkfemVerif.Props.C04"], ["SkfemVerif/Props/C04.lean"])
-    n = ctx.scale(150, 1500)
+    n = ctx.scale(400, 3000)
     pending = []
     for it in range(n):
         if ctx.time_left(0.75) < 0:
@@ -161,7 +161,7 @@ def run(ctx):
         req.update(topo_json(m, e))
         pending.append((m, ename, info, req, dofs))
         # matrix shape and sparsity (every 5th case; needs a Basis)
-        if it % 5 == 0 and elements.family(e) != "global" or (it % 15 == 0):
+        if (m.nelements <= 12 and elements.family(e) != "global") or (it % 10 == 0):
             try:
                 b = Basis(m, e, intorder=2)
                 A = BilinearForm(fields.generic_bilinear()).assemble(b)
@@ -180,7 +180,8 @@ def run(ctx):
                                   {"what": "sparsity", "element": ename})
                 ctx.count("sparsity-checks")
                 # DOF location table
-                if b.doflocs is not None and hasattr(e, "doflocs") and max(elements.counts(e)[1:3]) <= 1:
+                if getattr(b, "doflocs", None) is not None and hasattr(e, "doflocs") \
+                        and max(elements.counts(e)[1:3]) <= 1:
                     mp = m.mapping()
                     for j in range(ed.shape[0]):
                         X = np.asarray(e.doflocs[j], dtype=float)[:, None]
